@@ -73,7 +73,8 @@ incremental = false
 """ % (str(c["debug_assertions"]).lower(), str(c["overflow_checks"]).lower())
 
 
-def _crate_toml(name, deps=""):
+def _crate_toml(name, deps="", features=None):
+    feat = (", features = [%s]" % ", ".join('"%s"' % f for f in features)) if features else ""
     return """[package]
 name = "%s"
 version = "0.0.0"
@@ -84,8 +85,8 @@ crate-type = ["cdylib"]
 path = "src/lib.rs"
 
 [dependencies]
-substrate-fixed = { path = "%s" }
-%s""" % (name, C.REPO, deps)
+substrate-fixed = { path = "%s"%s }
+%s""" % (name, C.REPO, feat, deps)
 
 
 class Crate:
@@ -161,7 +162,7 @@ def build(cfg, crates, max_retries=4):
         for attempt in range(max_retries + 1):
             for cr in todo:
                 d = os.path.join(cdir, cr.name)
-                _write_if_changed(os.path.join(d, "Cargo.toml"), _crate_toml(cr.name, getattr(cr, "deps", "")))
+                _write_if_changed(os.path.join(d, "Cargo.toml"), _crate_toml(cr.name, getattr(cr, "deps", ""), getattr(cr, "features", None)))
                 _write_if_changed(os.path.join(d, "src", "lib.rs"), cr.text(dropped[cr.name]))
             env = {"CARGO_TARGET_DIR": _target_dir(cfg),
                    "RUSTC_WORKSPACE_WRAPPER": WRAPPER,
